@@ -133,6 +133,7 @@ void exercise(const std::string& path, size_t image_size, int mode, bool verify,
     (void)carquet_reader_num_rows(rd); (void)carquet_reader_is_mmap(rd);
     const carquet_schema_t* s = carquet_reader_schema(rd);
     std::vector<carquet_column_reader_t*> open_cols; std::vector<carquet_batch_reader_t*> open_brs;
+    int present_bit = -1;      // bitmap bit value that means "row present", once observed on a column without nulls
     int nops = 4 + (int)r.below(24);
     for (int op = 0; op < nops; op++) {
         uint32_t k = r.below(14);
@@ -210,6 +211,26 @@ void exercise(const std::string& path, size_t image_size, int mode, bool verify,
                     if (nv > 0 && bm) { volatile uint8_t sink = bm[0] ^ bm[(size_t)(nv - 1) / 8]; (void)sink; }
                     mixi(nv); if (out && nv > 0 && bm) { mixb(bm, (size_t)nv / 8); if (nv % 8) mixi(bm[(size_t)nv / 8] & ((1 << (nv % 8)) - 1)); }
                     (void)nr;
+                    // a user goes by the bitmap: the values of the rows it marks present are looked at (which bit value means
+                    // "present" is learnt from a column that cannot hold nulls - every bit of its bitmap is the "present" value)
+                    int32_t fc = proj.empty() ? ci : proj[(size_t)ci];
+                    const carquet_schema_node_t* bnode = nullptr;
+                    { int ne = carquet_schema_num_elements(s), leaf = -1; for (int i = 0; i < ne && i < 20000; i++) { const carquet_schema_node_t* n = carquet_schema_get_element(s, i); if (n && carquet_schema_node_is_leaf(n)) { leaf++; if (leaf == fc) { bnode = n; break; } } } }
+                    if (!bnode || nv <= 0 || nv > (1 << 22) || !data) continue;
+                    if (bm && carquet_schema_node_max_def_level(bnode) == 0 && present_bit < 0) present_bit = bm[0] & 1;
+                    int64_t nn = -1;
+                    if (!bm || carquet_schema_node_max_def_level(bnode) == 0) nn = nv;
+                    else if (present_bit >= 0) { nn = 0; for (int64_t j = 0; j < nv; j++) nn += ((bm[j / 8] >> (j % 8)) & 1) == present_bit; }
+                    if (nn < 0) continue;
+                    size_t bslot = user_slot(bnode);
+                    if (!bslot) continue;
+                    if ((int)carquet_schema_node_physical_type(bnode) == T_BA) {
+                        volatile uint8_t sink = 0; int64_t chk = std::min<int64_t>(nn, 64);
+                        for (int64_t j = 0; j < chk; j++) { carquet_byte_array_t ba; memcpy(&ba, (const uint8_t*)data + (size_t)j * bslot, sizeof ba);
+                            SIM_CHECK(ba.length >= 0, "contract.negative_byte_array_length", "batch column %d: byte array %lld of a row the bitmap marks present has length %d", ci, (long long)j, ba.length);
+                            if (ba.length > 0) { SIM_CHECK(ba.data != nullptr, "contract.null_byte_array", "batch column %d: byte array %lld has length %d and a NULL pointer", ci, (long long)j, ba.length); sink ^= ba.data[0]; sink ^= ba.data[(size_t)ba.length - 1]; } }
+                        (void)sink;
+                    } else mixb(data, bslot * (size_t)nn);
                 }
                 cq::row_batch_free(b);
             }
@@ -309,6 +330,24 @@ void run_c04(sim::RunCtx& ctx) {
                 what += sim::fmt(" lie(chunk%zu page%zu size=to_eof%+lld)", c, pg, (long long)(lie.value - to_eof));
             }
         }
+        // levels beyond the column's maximum (they fit the bit width when max+1 is not a power of two): such an entry is neither "present"
+        // nor a legal null - no value is stored for it
+        if (r.below(2) == 0) {
+            std::vector<size_t> cand; for (size_t c = 0; c < t.cols.size(); c++) { int m = t.cols[c].max_def; if (m > 0 && ((m + 1) & m) != 0) cand.push_back(c); }
+            if (!cand.empty() && !t.rgs.empty()) {
+                size_t c = cand[r.below((uint32_t)cand.size())]; size_t g = r.below((uint32_t)t.rgs.size()); Chunk& ch = t.rgs[g].cols[c];
+                int m = t.cols[c].max_def; int top = 1; while (top <= m) top <<= 1; top -= 1;      // largest value the level bit width can hold
+                size_t hits = 0;
+                std::vector<std::string> kept; size_t vi = 0;
+                for (size_t i = 0; i < ch.def.size(); i++) {
+                    bool present = ch.def[i] == m; bool bump = r.below(4) == 0;
+                    if (bump) { ch.def[i] = (int16_t)(m + 1 + (int)r.below((uint32_t)(top - m))); hits++; }
+                    if (present) { if (!bump) kept.push_back(ch.vals[vi]); vi++; }
+                }
+                ch.vals = kept;
+                if (hits) what += sim::fmt(" levels>max(rg%zu col%zu max_def %d, %zu entries)", g, c, m, hits);
+            }
+        }
         ref::Written W = ref::write_file(t, L);
         img.assign(W.bytes.begin(), W.bytes.end());
         if (r.below(5) == 0) mutate_footer(img, r, what);
@@ -361,7 +400,7 @@ namespace sim {
 void register_c04() {
     Property p;
     p.id = "C04"; p.level = "exploration";
-    p.rule = "one run = one hostile image derived from a valid one (peer- or carquet-written) by 1-3 storage faults: footer field mutation through the peer's Thrift value tree (boundary/random scalars, list length changes, dropped/renumbered/retyped fields, strings, nesting bombs up to 30000 levels, footer length), planted page-header/body inconsistencies emitted with coherent offsets (page type, sizes, crc, num_values, encodings, dictionary size, index bit width, level-block lengths), payload damage with verification off, lost/duplicated/spliced/zeroed blocks, truncation, bit flips, or pure garbage between valid magics; plus input-stream faults (EIO, failed seek, early EOF, fopen failure) on the fread path and failing open/fstat/mmap on the mmap path; each image is opened through the three transports and, if it opens, driven by a seeded history of every public reader call (out-of-range indices, exact-size caller buffers sized from the public schema accessors, batch reader, statistics/pruning, schema accessors, seeded release order); one evaluation = one API operation on a hostile handle; oracle: ASan/UBSan/guard pages, per-call tick budget c0 + c1*(image bytes + bytes granted by the allocator), error contract, ledger empty and all streams/mappings released";
+    p.rule = "one run = one hostile image derived from a valid one (peer- or carquet-written) by 1-3 storage faults: footer field mutation through the peer's Thrift value tree (boundary/random scalars, list length changes, dropped/renumbered/retyped fields, strings, nesting bombs up to 30000 levels, footer length), planted page-header/body inconsistencies emitted with coherent offsets (page type, sizes, crc, num_values, encodings, dictionary size, index bit width, level-block lengths, levels above the column's maximum), payload damage with verification off, lost/duplicated/spliced/zeroed blocks, truncation, bit flips, or pure garbage between valid magics; plus input-stream faults (EIO, failed seek, early EOF, fopen failure) on the fread path and failing open/fstat/mmap on the mmap path; each image is opened through the three transports and, if it opens, driven by a seeded history of every public reader call (out-of-range indices, exact-size caller buffers sized from the public schema accessors, batch reader whose values are looked at for every row its bitmap marks present, statistics/pruning, schema accessors, seeded release order); one evaluation = one API operation on a hostile handle; oracle: ASan/UBSan/guard pages, per-call tick budget c0 + c1*(image bytes + bytes granted by the allocator), error contract, ledger empty and all streams/mappings released";
     p.quick_runs = 60000; p.thorough_runs = 3000000;
     p.run = run_c04;
     p.assumptions = {"tick budget per API call: 4e6 + 3000 x (image bytes + 4096 + bytes granted to the library since the handle's transport was opened + live bytes) basic blocks; allocations above 64 MiB (or 256 MiB live) are refused by the simulated allocator, which bounds the budget",
